@@ -2,6 +2,7 @@ package percolator
 
 import (
 	"fmt"
+	"math"
 
 	NoKV "github.com/feichai0017/NoKV"
 	"github.com/feichai0017/NoKV/kv"
@@ -347,6 +348,11 @@ func isLockExpired(lock *Lock, currentTs uint64) bool {
 		return false
 	}
 	if lock.TTL == 0 {
+		return false
+	}
+	// Ts+TTL beyond the timestamp domain can never be reached by currentTs; without
+	// this check the uint64 sum wraps and a far-future expiry looks already expired.
+	if lock.TTL > math.MaxUint64-lock.Ts {
 		return false
 	}
 	return currentTs >= lock.Ts+lock.TTL
